@@ -32,8 +32,9 @@ RULE = ("a case is a namespace with a dependency chain of depth 0-3 (dependencie
         "duplicate marker, construction faults of fields/constants, field after _offset_ in a union, missing serialization mode, "
         "malformed union) at a random position of a random file of the chain; non-trivial = a fault or a print in a file with at "
         "least one preceding comment/blank/multi-line line, or below depth 0; distinct = by hash of the case")
-THEOREMS_NOTE = ("C17_line_counter/C17_line_immediate/C17_line_commit fix the reported line of every fault, C17_path_innermost the path, "
-                 "C17_print_here_partial the deliveries of target files; C17_print_refuted is the F3 witness")
+THEOREMS_NOTE = ("C17_line_counter/C17_line_immediate/C17_line_commit/C17_line_finish fix the reported line of every fault, C17_path_innermost "
+                 "(with C17_finalize_line) the path and the absence of a line, C17_print_once_here_stmt/_partial the deliveries outside the F3 "
+                 "pattern; C17_print_refuted / C17_print_twice_refuted are the F3 witnesses")
 TRUSTED = ["the line reported for a syntax error is computed by parsimonious (ParseError.line()); it is compared with the physical "
            "line of the injected text, not derived from a model of the PEG engine",
            "the order in which _read_definitions visits the targets (sorted by full name, newest version first) is computed by the "
@@ -388,15 +389,34 @@ def targeted():
     # F12: an error of finalize() in a dependency keeps line None
     out.append(mk([("ns/A.1.0.dsdl", True, [L(), L(), L(ref_field("Z.1.0", 2, "z")), L(sealed)], None),
                    ("ns/Z.1.0.dsdl", True, [L(field("a")), L()], None)], "final:no-mode", 2, 1, 1))
+    # a dependency cycle and a self-reference: the referrer has been removed from the lookup list, so the reference is undefined
+    out.append(mk([("ns/M.1.0.dsdl", True, [L(ref_field("Z1.1.0", 2, "z")), L(sealed)], None),
+                   ("ns/Z1.1.0.dsdl", True, [L(), L(ref_field("ns.M.1.0", 1, "m")), L(sealed)], 2)], "type:cycle", 2, 1, 1))
+    out.append(mk([("ns/M.1.0.dsdl", True, [L(c=" x"), L(p222), L(ref_field("M.1.0", 1, "m")), L(sealed)], 3)], "type:self", 1, 0, 0))
     for cat in ANYWHERE + STATEFUL:
         for depth, where in ((0, 0), (2, 2), (2, 1)):
             out.append(gen_case(rng, "quick", cat, depth, where))
     return out
 
 
+def corpus():
+    import glob
+    import json
+    d = os.path.join(os.path.dirname(os.path.dirname(os.path.dirname(os.path.abspath(__file__)))), "corpus", ID)
+    out = []
+    for p in sorted(glob.glob(os.path.join(d, "*.json"))):
+        c = json.load(open(p))
+        c.pop("why", None)
+        out.append(c)
+    return out
+
+
 def generate(rng, tier):
-    cases = targeted()
-    streams = ["targeted"] * len(cases)
+    cases = corpus()
+    streams = ["corpus"] * len(cases)
+    t = targeted()
+    cases += t
+    streams += ["targeted"] * len(t)
     n = 700 if tier == "quick" else 12000
     for _ in range(n):
         cases.append(gen_case(rng, tier))
